@@ -30,8 +30,16 @@ def acl_text_of(case):
     acls = case["acls"]
     if len(acls) == 1 and acls[0].get("name") is None:
         return acls[0]["text"]
-    parts = {a["name"]: SimpleNamespace(name=a["name"], acl=a["text"]) for a in acls}
-    return _combine_acl_text(parts, lambda gr: gr.acl)
+    # the combined ACL exactly as annet.gen builds it: one RunGeneratorResult per device, one partial result per
+    # generator, acl_text() over them (a fresh result object per case - what one device sees must not depend on
+    # the generators of devices processed before it in this process)
+    from annet.generators.result import RunGeneratorResult
+    from annet.types import GeneratorPartialResult
+    res = RunGeneratorResult()
+    for a in acls:
+        res.add_partial(GeneratorPartialResult(name=a["name"], tags=[], acl=a["text"], acl_rules=None, acl_safe="",
+                                               acl_safe_rules=None, output="", config={}, safe_config={}, perf=None))
+    return res.acl_text()
 
 
 def compile_acl(text, vendor):
@@ -58,14 +66,17 @@ def one(case):
         fmt = PR.fmt_for(vendor)
         dev = SimpleNamespace(hw=hw)
         fresh = lambda k: PR.to_odict(case[k])  # noqa: E731
+        # a user filter (--filter-acl) that passes everything: the patch must be what it is without a filter; in
+        # particular the protection the generators' ACL gives (%cant_delete) must survive a later ACL of the list
+        flt = (lambda: compile_acl("~ %global\n", vendor)) if case.get("filter") else (lambda: None)
         res["old_f"] = tree_json(patching.apply_acl(fresh("old"), compile_acl(text, vendor)))
         res["new_f"] = tree_json(patching.apply_acl(fresh("new"), compile_acl(text, vendor)))
         try:
-            res["diff_full"] = PR.diff_json(patching.make_diff(fresh("old"), fresh("new"), rb, [compile_acl(text, vendor)]))
+            res["diff_full"] = PR.diff_json(patching.make_diff(fresh("old"), fresh("new"), rb, [compile_acl(text, vendor), flt()]))
         except Exception as e:  # noqa
             res["diff_full_err"] = type(e).__name__ + ":" + str(e)[:200]
         try:
-            d, p = api._diff_and_patch(dev, fresh("old"), fresh("new"), compile_acl(text, vendor), None, False, rb=rb)
+            d, p = api._diff_and_patch(dev, fresh("old"), fresh("new"), compile_acl(text, vendor), flt(), False, rb=rb)
             res["diff"] = PR.diff_json(d)
             res["patch"] = PR.patch_json(p)
             res["cmd_paths"] = [list(k) for k in fmt.cmd_paths(p).keys()]
@@ -79,7 +90,7 @@ def one(case):
             acl = compile_acl(text, vendor)
             o2 = patching.apply_acl(fresh("old"), acl)
             n2 = patching.apply_acl(fresh("new"), acl, exclusive=False)
-            _, p2 = api._diff_and_patch(dev, o2, n2, acl, None, False, rb=rb)
+            _, p2 = api._diff_and_patch(dev, o2, n2, acl, flt(), False, rb=rb)
             res["gen_paths"] = [list(k) for k in fmt.cmd_paths(p2).keys()]
         except AssertionError:
             res["gen_err"] = "AssertionError"
